@@ -25,9 +25,9 @@ P2pQueries == { <<"i1", TRUE, FALSE, 104>>, <<"i2", FALSE, FALSE, 1400>> }
 \* ---- odd-entries world: two prefixes, multi-entry responses, entries the loop skips, /32s of others
 OddNbrs == {"a", "c"}
 OddPrefixes == {"p1", "p2"}
-OddMsgs == { <<E("p1", 1), E("p2", 2)>>, <<E("p1", 15), E("p1", 1)>>, <<E("p2", 16)>>, <<E("p1", 0)>>, <<E("p2", 17)>>,
-             <<[k |-> "p1", m |-> 1, tag |-> 1, af |-> "inet"], E("p2", 1)>>,
-             <<[k |-> "p2", m |-> 1, tag |-> 0, af |-> "other"]>>, <<E("a", 1)>>, <<E("c", 0)>>, <<E("s1", 1)>>, <<>> }
+OddMsgs == { <<E("p1", 1), E("p2", 2)>>, <<E("p1", 15), E("p1", 1)>>, <<E("p2", 1), E("p2", 16)>>, <<E("p2", 16)>>, <<E("p1", 0)>>,
+             <<[k |-> "p1", m |-> 1, tag |-> 1, af |-> "inet"], E("p2", 17)>>,
+             <<[k |-> "p2", m |-> 1, tag |-> 0, af |-> "other"]>>, <<E("a", 1)>>, <<>> }
 OddQueries == { <<"i1", TRUE, FALSE, 104>> }
 \* ---- export worlds (edge cover): small, so that every transition can be replayed
 XMsgs == { <<E("p1", 1)>>, <<E("p1", 16)>> }
